@@ -1,6 +1,7 @@
 package main
 
 import (
+	"verif.local/mc/harness/c02"
 	"verif.local/mc/harness/c03"
 	"verif.local/mc/harness/c06"
 	"verif.local/mc/harness/c20"
@@ -16,6 +17,7 @@ import (
 )
 
 func init() {
+	register("C02", "exploration", c02.Run)
 	register("C03", "exploration", c03.Run)
 	register("C06", "exploration", c06.Run)
 	register("C20", "exploration", c20.Run)
